@@ -66,6 +66,7 @@ func run(sc scenario) (triggers []string, err error) {
 	var stream, plain []byte
 	var frameEnds []int // offsets in stream where frames end
 	var frameLens []int // plaintext length per frame
+	trigEmpty := false
 	for i, n := range sc.MsgLens {
 		p := filler(n, uint32(i+1))
 		plain = append(plain, p...)
@@ -73,7 +74,28 @@ func run(sc scenario) (triggers []string, err error) {
 		if i < len(sc.Framing) {
 			sizes = sc.Framing[i]
 		}
-		for _, f := range sealer.SealMessage(p, sizes) {
+		// a size of -1 asks for an empty frame (length 0, valid tag) before the next data frame: well-formed, carries nothing
+		var frames [][]byte
+		rest := p
+		for j := 0; len(rest) > 0; j++ {
+			sz := 1024
+			if j < len(sizes) {
+				if sizes[j] == -1 {
+					frames = append(frames, sealer.SealFrame(nil))
+					trigEmpty = true
+					continue
+				}
+				if sizes[j] > 0 && sizes[j] <= 1024 {
+					sz = sizes[j]
+				}
+			}
+			if sz > len(rest) {
+				sz = len(rest)
+			}
+			frames = append(frames, sealer.SealFrame(rest[:sz]))
+			rest = rest[sz:]
+		}
+		for _, f := range frames {
 			stream = append(stream, f...)
 			frameEnds = append(frameEnds, len(stream))
 			frameLens = append(frameLens, len(f)-18)
@@ -148,6 +170,12 @@ func run(sc scenario) (triggers []string, err error) {
 	if len(sc.MsgLens) > 1 {
 		trig["several-messages"] = true
 	}
+	if trigEmpty {
+		trig["empty-frame"] = true
+	}
+	if len(stream)%4096 == 0 {
+		trig["ciphertext-multiple-of-4096"] = true
+	}
 	for k := range trig {
 		triggers = append(triggers, k)
 	}
@@ -184,8 +212,8 @@ func run(sc scenario) (triggers []string, err error) {
 	idleReturns := 0
 	for len(got) < len(plain) || conn.Pending() {
 		calls++
-		if calls > 20000 {
-			return triggers, fmt.Errorf("no progress after 20000 Read calls: received %d of %d bytes", len(got), len(plain))
+		if calls > 3*len(plain)+5000 { // with a one-byte caller buffer every plaintext byte costs a call
+			return triggers, fmt.Errorf("no progress after %d Read calls: received %d of %d bytes", calls, len(got), len(plain))
 		}
 		bs := sc.BufSizes[(calls-1)%len(sc.BufSizes)]
 		buf := make([]byte, bs)
@@ -266,6 +294,8 @@ func firstDiff(a, b []byte) int {
 var msgLen = rapid.OneOf(
 	rapid.IntRange(1, 40),
 	rapid.SampledFrom([]int{1, 2, 512, 1023, 1024, 1025, 2047, 2048, 2049, 3072, 4095, 4096, 4097, 8192}),
+	// ciphertext totals that are multiples of common socket-buffer sizes (4096, 8192, 2048, 16384) when sent with maximal frames
+	rapid.SampledFrom([]int{4024, 8048, 2012, 16096, 4006, 8030}),
 	rapid.IntRange(1, 5000),
 )
 
@@ -279,7 +309,7 @@ func genScenario(t *rapid.T) scenario {
 		l := msgLen.Draw(t, "len")
 		sc.MsgLens = append(sc.MsgLens, l)
 		if rapid.IntRange(0, 2).Draw(t, "framing") == 0 {
-			sc.Framing = append(sc.Framing, rapid.SliceOfN(rapid.OneOf(rapid.IntRange(1, 30), rapid.IntRange(1, 1024), rapid.Just(1024)), 1, 6).Draw(t, "sizes"))
+			sc.Framing = append(sc.Framing, rapid.SliceOfN(rapid.OneOf(rapid.IntRange(1, 30), rapid.IntRange(1, 1024), rapid.Just(1024), rapid.Just(-1)), 1, 6).Draw(t, "sizes"))
 		} else {
 			sc.Framing = append(sc.Framing, nil)
 		}
@@ -290,7 +320,7 @@ func genScenario(t *rapid.T) scenario {
 		sc.Cuts = []int{-1}
 	case 1: // everything in one segment
 	default:
-		sc.Cuts = rapid.SliceOfN(rapid.IntRange(1, total+40), 1, 8).Draw(t, "cuts")
+		sc.Cuts = rapid.SliceOfN(rapid.OneOf(rapid.IntRange(1, total+40), rapid.SampledFrom([]int{2048, 4096, 8192, 12288, 16384})), 1, 8).Draw(t, "cuts")
 	}
 	sc.IdleAt = rapid.SliceOfN(rapid.IntRange(0, 9), 0, 4).Draw(t, "idle")
 	sc.BufSizes = rapid.SliceOfN(bufSize, 1, 4).Draw(t, "bufs")
@@ -310,6 +340,12 @@ func frameAligned(sc *scenario) {
 			j := 0
 			for n > 0 {
 				f := 1024
+				if j < len(sizes) && sizes[j] == -1 {
+					j++
+					off += 18
+					sc.Cuts = append(sc.Cuts, off)
+					continue
+				}
 				if j < len(sizes) && sizes[j] > 0 && sizes[j] <= 1024 {
 					f = sizes[j]
 				}
@@ -403,6 +439,10 @@ func TestC07Regress(t *testing.T) {
 		{"frame split by an idle period", scenario{MsgLens: []int{100}, Cuts: []int{50}, IdleAt: []int{1}, BufSizes: []int{4096}}},
 		{"2048-byte message followed by a second message", scenario{MsgLens: []int{2048, 10}, Cuts: []int{-1}, BufSizes: []int{4096}}},
 		{"header and body in separate short frames", scenario{MsgLens: []int{300}, Framing: [][]int{{100, 200}}, Cuts: []int{-1}, BufSizes: []int{4096}}},
+		{"an empty frame between two data frames", scenario{MsgLens: []int{30}, Framing: [][]int{{10, -1, 20}}, BufSizes: []int{4096}}},
+		{"an empty frame first, in its own segment", scenario{MsgLens: []int{30}, Framing: [][]int{{-1, 30}}, Cuts: []int{-1}, BufSizes: []int{4096}}},
+		{"exactly 4096 bytes of ciphertext in one segment, then idle", scenario{MsgLens: []int{4024}, BufSizes: []int{8192}}},
+		{"exactly 8192 bytes of ciphertext in one segment, then idle", scenario{MsgLens: []int{8048}, BufSizes: []int{4096}}},
 	}
 	for i := range cases {
 		frameAligned(&cases[i].sc)
